@@ -25,6 +25,9 @@ CORPUS = [
     ('fn ping(n: Int) { let h = pong  h(n) }\nfn pong(n: Int) { ping(n) + 1 }\n', 'pong(n:', 'fn pong(Int) -> Int'),
     ('fn apply(f, x) { f(x) }\nfn even(n: Int) { case n { 0 -> True  _ -> apply(odd, n - 1) } }\nfn odd(n: Int) { case n { 0 -> False  _ -> even(n - 1) } }\n', 'odd(n:', 'fn odd(Int) -> Bool'),
     ('fn walk(l: List(Int)) { case l { [] -> 0  [h, ..t] -> h + step(t) } }\nfn step(l: List(Int)) { let again = walk  again(l) }\n', 'again =', 'fn(List(Int)) -> Int'),
+] + [
+    # a type the module declares under the name of a prelude type IS the annotation (a record of its own: the field access must type)
+    ('pub type %s { Mine(inner: Float) }\nfn f(v: %s) { let w = v.inner  w }\n' % (n_, n_), 'w =', 'Float') for n_ in ('Int', 'Float', 'String', 'BitArray', 'Bool', 'Nil', 'List', 'Result')
 ]
 
 
@@ -33,6 +36,10 @@ WS_CORPUS = [
     ({'files': [{'path': '/app/src/shop.gleam', 'text': 'import ids.{type Id}\npub type Box { Box(Int) }\nfn pick(id: Id, box: Box) -> Box { let b = box  b }\n', 'root': 0},
                 {'path': '/app/src/ids.gleam', 'text': 'pub type Id = Int\n', 'root': 0}],
       'roots': [{'path': '/app', 'local': True, 'deps': []}], 'file': 0}, 'b =', 'Box'),
+    # a type imported under the name of a prelude type
+    ({'files': [{'path': '/app/src/main.gleam', 'text': 'import other.{type Result}\nfn f(v: Result) { let w = v.inner  w }\n', 'root': 0},
+                {'path': '/app/src/other.gleam', 'text': 'pub type Result { Mine(inner: Float) }\n', 'root': 0}],
+      'roots': [{'path': '/app', 'local': True, 'deps': []}], 'file': 0}, 'w =', 'Float'),
 ]
 
 
@@ -46,7 +53,7 @@ def native_corpus(oracle):
         if not isinstance(r, dict) or 'panic' in r or 'died' in r:
             problems.append('hover on the workspace %r: %s' % (src, r))
         elif got is None or want not in got:
-            problems.append('hover on %r (workspace with ids.gleam `pub type Id = Int`) at %r shows %r, Gleam assigns %s' % (src, needle, got, want))
+            problems.append('hover on %r (workspace with %s) at %r shows %r, Gleam assigns %s' % (src, ', '.join('%s %r' % (f_['path'].split('/')[-1], f_['text']) for f_ in req['files'][1:]), needle, got, want))
     for src, needle, want in CORPUS:
         r = oracle.ask('hover', json.dumps({'text': src, 'offsets': [src.index(needle)]}))
         got = (r.get('hover') or [None])[0] if isinstance(r, dict) else None
@@ -112,6 +119,10 @@ def run_kernel(chk, tier, jobs, props):
     res, complete = explore.explore(deporder.complete_factory, (), jobs=1)
     chk.add_run('dependency_order_query: completeness - every identifier of the body that resolves to a function (callee, argument, let-bound reference; which ones resolve is symbolic) yields an edge', res, complete,
                 {'identifiers': 3}, nontrivial_classes=lambda c: c.startswith('edges:') and c != 'edges:0')
+    found += [v for v in res.violations if any(w.startswith(tuple(props)) for w in v['why'])]
+    res, complete = explore.explore(unifier.shadow_factory, (), jobs=1)
+    chk.add_run('make_ty_from_typeref on every unqualified prelude type name: a type of that name in the module scope (presence symbolic) is the annotation, the prelude meaning is the fallback', res, complete,
+                {'names': len(unifier.PRELUDE) + 1}, nontrivial_classes=lambda c: c in ('module-type', 'prelude'))
     found += [v for v in res.violations if any(w.startswith(tuple(props)) for w in v['why'])]
     for na in (1, 2):
         res, complete = explore.explore(unifier.alias_factory, (na,), jobs=1)
